@@ -236,3 +236,131 @@ pub fn err_kind(e: &savefile::SavefileError) -> String {
     let d = format!("{:?}", e);
     d.chars().take_while(|c| c.is_ascii_alphanumeric() || *c == '_').collect()
 }
+
+// ---------------------------------------------------------------------------------------------
+// Shareability family: `AbiConnection<T>` gives no mutual exclusion, so it may be `Sync` only when
+// the implementation behind it is. `Tally: Send` (NOT Sync) keeps its state in Cell / RefCell and
+// does read – scheduling point – write; `TallySync: Send + Sync` is the positive control with an
+// atomic counter. Whether safe code can share a connection between threads is decided at compile
+// time by the trait system, so the scenarios first ask the compiler (probe below) and share the
+// connection only through a helper that exists only when the bound holds.
+
+#[savefile_abi_exportable(version = 0)]
+pub trait Tally: Send {
+    fn bump(&self, by: u32) -> u32;
+    fn record(&self, v: u32) -> u32;
+    fn total(&self) -> u32;
+    fn recorded(&self) -> u32;
+}
+#[derive(Default)]
+pub struct TallyImpl {
+    count: std::cell::Cell<u32>,
+    log: std::cell::RefCell<Vec<u32>>,
+}
+impl Tally for TallyImpl {
+    fn bump(&self, by: u32) -> u32 {
+        shim::note_impl("r");
+        let v = self.count.get();
+        shim::sched_point();
+        self.count.set(v + by);
+        shim::note_impl("w");
+        by
+    }
+    fn record(&self, v: u32) -> u32 {
+        shim::note_impl("r");
+        let mut l = self.log.borrow_mut();
+        shim::sched_point();
+        l.push(v);
+        shim::note_impl("w");
+        v
+    }
+    fn total(&self) -> u32 {
+        self.count.get()
+    }
+    fn recorded(&self) -> u32 {
+        self.log.borrow().iter().sum::<u32>() * 100 + self.log.borrow().len() as u32
+    }
+}
+
+#[savefile_abi_exportable(version = 0)]
+pub trait TallySync: Send + Sync {
+    fn bump(&self, by: u32) -> u32;
+    fn record(&self, v: u32) -> u32;
+    fn total(&self) -> u32;
+    fn recorded(&self) -> u32;
+}
+#[derive(Default)]
+pub struct TallySyncImpl {
+    count: std::sync::atomic::AtomicU32,
+    sum: std::sync::atomic::AtomicU32,
+    n: std::sync::atomic::AtomicU32,
+}
+impl TallySync for TallySyncImpl {
+    fn bump(&self, by: u32) -> u32 {
+        shim::note_impl("r");
+        shim::sched_point();
+        self.count.fetch_add(by, std::sync::atomic::Ordering::SeqCst);
+        shim::note_impl("w");
+        by
+    }
+    fn record(&self, v: u32) -> u32 {
+        shim::note_impl("r");
+        shim::sched_point();
+        self.sum.fetch_add(v, std::sync::atomic::Ordering::SeqCst);
+        self.n.fetch_add(1, std::sync::atomic::Ordering::SeqCst);
+        shim::note_impl("w");
+        v
+    }
+    fn total(&self) -> u32 {
+        self.count.load(std::sync::atomic::Ordering::SeqCst)
+    }
+    fn recorded(&self) -> u32 {
+        self.sum.load(std::sync::atomic::Ordering::SeqCst) * 100 + self.n.load(std::sync::atomic::Ordering::SeqCst)
+    }
+}
+
+pub fn new_tally() -> R<AbiConnection<dyn Tally>> {
+    AbiConnection::<dyn Tally>::from_boxed_trait(Box::new(TallyImpl::default()))
+}
+pub fn new_tally_sync() -> R<AbiConnection<dyn TallySync>> {
+    AbiConnection::<dyn TallySync>::from_boxed_trait(Box::new(TallySyncImpl::default()))
+}
+
+/// Compile-time probe (inherent-impl specialisation): `Probe::<X>::IS_SYNC` resolves to the
+/// inherent constant when `X: Sync` holds and to the blanket trait default otherwise.
+pub struct Probe<T: ?Sized>(std::marker::PhantomData<T>);
+pub trait ProbeFallback {
+    const IS_SYNC: bool = false;
+}
+impl<T: ?Sized> ProbeFallback for Probe<T> {}
+impl<T: ?Sized + Sync> Probe<T> {
+    pub const IS_SYNC: bool = true;
+}
+pub const TALLY_CONN_IS_SYNC: bool = <Probe<AbiConnection<dyn Tally>>>::IS_SYNC;
+pub const TALLYSYNC_CONN_IS_SYNC: bool = <Probe<AbiConnection<dyn TallySync>>>::IS_SYNC;
+// the probe itself must be able to answer both ways
+pub const PROBE_CONTROL_TRUE: bool = <Probe<u32>>::IS_SYNC;
+pub const PROBE_CONTROL_FALSE: bool = <Probe<std::cell::Cell<u32>>>::IS_SYNC;
+
+/// Sharing a value between shuttle threads by the only means safe code has: `Arc<C>` moved into
+/// `thread::spawn`, which compiles only for `C: Send + Sync`. The inherent method exists only
+/// under that bound; otherwise method resolution falls through to the trait default, which
+/// answers `None` (= safe code cannot share this connection).
+pub type Body<C> = Box<dyn Fn(&C) -> Vec<String> + Send + 'static>;
+pub struct Sharer<C>(pub std::marker::PhantomData<C>);
+pub trait NotShareable<C> {
+    fn run_shared(&self, _c: &std::sync::Arc<C>, _bodies: Vec<Body<C>>) -> Option<Vec<Vec<String>>> {
+        None
+    }
+}
+impl<C> NotShareable<C> for Sharer<C> {}
+impl<C: Send + Sync + 'static> Sharer<C> {
+    pub fn run_shared(&self, c: &std::sync::Arc<C>, bodies: Vec<Body<C>>) -> Option<Vec<Vec<String>>> {
+        let mut handles = vec![];
+        for b in bodies {
+            let c = c.clone();
+            handles.push(shuttle::thread::spawn(move || b(&c)));
+        }
+        Some(handles.into_iter().map(|h| h.join().unwrap_or_else(|_| vec!["thread-panicked".into()])).collect())
+    }
+}
